@@ -608,12 +608,23 @@ def oracle(ctx, scale):
         psi, _ = gen_shape(ctx, g, n, ctx.rng.choice(KINDS[:7]))
         ctx.count(f"oracle_kind_{kind}")
         ctx.nontrivial.add(("oracle", kind, n))
-        base = check_bounds(ctx, gen, phi, meta, psi)
-        base["MAC2"] = gen.MAC(psi, phi)
-        c = rand_scale(ctx, g)
-        check_scale(ctx, gen, phi, meta, psi, c, base)
+        # every seventh case runs with NumPy's floating-point errors raised and warnings as errors (a legal state of the
+        # caller's process): the indicators are defined and finite on these shapes, so nothing may trip over 0/0 on the way
+        import contextlib
+        import warnings
+
+        strict = (it + it // len(KINDS)) % 7 == 3
+        with (np.errstate(all="raise") if strict else contextlib.nullcontext()), warnings.catch_warnings():
+            if strict:
+                warnings.simplefilter("error")
+                ctx.count("oracle_strict_fp_state")
+            base = check_bounds(ctx, gen, phi, meta, psi)
+            base["MAC2"] = gen.MAC(psi, phi)
+            c = rand_scale(ctx, g)
+            check_scale(ctx, gen, phi, meta, psi, c, base)
+            if "v" in meta:
+                check_collinear(ctx, gen, phi, meta)
         if "v" in meta:
-            check_collinear(ctx, gen, phi, meta)
             if kind != "unitcol":
                 check_msf(ctx, gen, meta["v"], float(ctx.rng.choice([2.0, -3.0, 0.25, 1e-6, 1e6, ctx.rng.uniform(-10, 10)])), "real")
         s = float(ctx.rng.choice([2.0, -3.0, 0.5, ctx.rng.uniform(-10, 10)]))
